@@ -4,17 +4,20 @@ import sys
 from common import quiet, quiet_import
 
 
-def build_random(rng, n_blocks=12, n_inputs=3, max_w=8, seq=True, gated=False, shuffle=True):
+def build_random(rng, n_blocks=12, n_inputs=3, max_w=8, seq=True, gated=False, shuffle=True, parent=None, in_wires=None, out_wires=None, plain_reset=False):
     """returns (hw, inputs, info).  inputs: undriven wires to poke.  Combinational part is acyclic by construction;
     feedback only through registers (q wires are created first and closed at the end).  With shuffle=True the
     blocks are INSTANTIATED in a random order (so Simulator.topologicalSort has work to do)."""
     py4hw = quiet_import()
     import py4hw.logic as L
-    hw = py4hw.HWSystem()
+    hw = py4hw.HWSystem() if parent is None else parent      # `parent`: build inside an existing Logic (its wires are local wires)
     recipe = []          # deferred constructor calls (name, callable)
     ins = []
     pool = []            # wires usable as sources
-    for i in range(n_inputs):
+    if in_wires is not None:
+        ins = list(in_wires); pool = list(in_wires)
+    else:
+      for i in range(n_inputs):
         w = hw.wire('in%d' % i, rng.randint(1, max_w)); ins.append(w); pool.append(w)
     regs = []            # (q wire, kwargs) to be closed later
     if seq:
@@ -88,8 +91,11 @@ def build_random(rng, n_blocks=12, n_inputs=3, max_w=8, seq=True, gated=False, s
             src = pick(); d = new(q.getWidth()); recipe.append(('buf', lambda src=src, d=d, i=i: py4hw.Buf(hw, 'rb%d' % i, src, d)))
         en = pick1() if rng.random() < .5 else None
         rs = pick1() if rng.random() < .5 else None
-        rv = rng.choice([None, 0, 1, 2 ** q.getWidth() - 1, rng.randrange(1 << q.getWidth()), -1, 2 ** q.getWidth(), 2 ** q.getWidth() + 5, -(2 ** q.getWidth()) - 3])
+        rv = rng.choice([None, 0]) if plain_reset else rng.choice([None, 0, 1, 2 ** q.getWidth() - 1, rng.randrange(1 << q.getWidth()), -1, 2 ** q.getWidth(), 2 ** q.getWidth() + 5, -(2 ** q.getWidth()) - 3])
         recipe.append(('reg', lambda i=i, d=d, q=q, en=en, rs=rs, rv=rv: py4hw.Reg(hw, 'r%d' % i, d, q, enable=en, reset=rs, reset_value=rv)))
+    for i, ow in enumerate(out_wires or []):
+        src = rng.choice([w for w in pool if w not in ins] or pool)
+        recipe.append(('buf', lambda src=src, ow=ow, i=i: py4hw.Buf(hw, 'ob%d' % i, src, ow)))
     if shuffle:
         rng.shuffle(recipe)
     with quiet():
